@@ -61,6 +61,40 @@ def check(fs, rlimit=None, timeout=None):
     return r, s
 
 
+def _seed_value(name, attempt, lo, hi):
+    """deterministic pseudo-random dyadic rational in [lo, hi]"""
+    import zlib
+
+    h = zlib.crc32(("%s#%d" % (name, attempt)).encode())
+    lo = -8 if lo is None else lo
+    hi = 8 if hi is None else hi
+    k = h % 257
+    return fractions.Fraction(lo) + (fractions.Fraction(hi) - fractions.Fraction(lo)) * fractions.Fraction(k, 256)
+
+
+def seeded_check(c, fs, attempts=3):
+    """satisfiability with a concolic head start: first try to extend a few concrete input assignments to
+    a model (cheap: everything becomes univariate); fall back to the full query.  Returns (result, solver)."""
+    if c is not None and SEEDING and len(c.inputs) > 0:
+        for k in range(attempts):
+            eqs = []
+            for name, (kind, var) in c.inputs.items():
+                if kind == "real":
+                    lo, hi = c.boxes.get(name, (None, None))
+                    v = _seed_value(name, k + c.seed_shift, lo, hi)
+                    eqs.append(var == z3.RealVal(str(v)))
+            if not eqs:
+                break
+            r, s = check(fs + eqs, rlimit=max(RLIMIT // 50, 100_000), timeout=5000)
+            if r == "sat":
+                STATS["seeded"] = STATS.get("seeded", 0) + 1
+                return r, s
+    return check(fs)
+
+
+SEEDING = True
+
+
 class Ctx:
     def __init__(self, prefix=(), done=(), check_last=False):
         self.prefix = list(prefix)
@@ -77,6 +111,8 @@ class Ctx:
         self.model_len = (0, 0, 0)
         self.notes = []
         self.memo = {}
+        self.boxes = {}
+        self.seed_shift = 0
 
     def all(self):
         return self.assume + self.defined + self.pc
@@ -84,6 +120,20 @@ class Ctx:
     def fresh_real(self, tag):
         self.fresh += 1
         return z3.Real("%s!%d" % (tag, self.fresh))
+
+    def fresh_free_real(self, tag, lo=-4, hi=4):
+        """engine-fresh real that is unconstrained apart from its box: registered like an input so that the
+        concolic seeding can pick a value for it (replay ignores it)"""
+        self.fresh += 1
+        name = "%s!%d" % (tag, self.fresh)
+        v = z3.Real(name)
+        self.inputs[name] = ("real", v)
+        self.boxes[name] = (lo, hi)
+        if lo is not None:
+            self.defined.append(v >= lo)
+        if hi is not None:
+            self.defined.append(v <= hi)
+        return v
 
     def fresh_bool(self, tag):
         self.fresh += 1
@@ -177,7 +227,7 @@ class SymB:
             d = c.prefix[c.pos]
             if c.pos == len(c.prefix) - 1 and c.check_last:
                 # the flipped branch of a backtrack: must be feasible
-                r, s = check(c.all() + [t if d else z3.Not(t)])
+                r, s = seeded_check(c, c.all() + [t if d else z3.Not(t)])
                 if r == "unsat":
                     raise Infeasible()
                 if r == "unknown":
@@ -201,7 +251,7 @@ class SymB:
                 if d is not None:
                     STATS["shortcut"] += 1
             if d is None:
-                r, s = check(c.all() + [t])
+                r, s = seeded_check(c, c.all() + [t])
                 if r == "sat":
                     d = True
                     c.pc.append(t)
@@ -210,7 +260,7 @@ class SymB:
                     c.done.append(False)
                     c.pos += 1
                     return d
-                r2, s2 = check(c.all() + [z3.Not(t)])
+                r2, s2 = seeded_check(c, c.all() + [z3.Not(t)])
                 if r2 == "sat":
                     d = False
                     c.pc.append(z3.Not(t))
